@@ -736,6 +736,7 @@ def gen_classic(rng, tier, seed):
         case['frames'] = _frames(rng, SDP, 2000, _sdp_special)
     elif target == 'rfcomm':
         case['frames'] = _frames(rng, RFCOMM_FR, 200)
+        case['degenerate_dlc'] = rng.choice([None, None, 0, 0, 1, 4, 5, 6])
     elif target == 'hfp_ag':
         case['frames'] = _frames(rng, AT_TO_AG, 900, _at_special)
     elif target == 'hfp_hf':
@@ -854,10 +855,13 @@ def _rfcomm_link(sim, world, ca):
     async def mk():
         srv = rfcomm.Server(world[0].device)
         srv.listen(acc.append, channel=1, max_frame_size=200, initial_credits=7)
+        srv.listen(acc2.append, channel=2, max_frame_size=200, initial_credits=7)
         return srv
+    acc2 = []
     sim.must(mk(), 'rfcomm server')
     client = rfcomm.Client(ca)
     mux = sim.must(client.start(), 'mux')
+    mux._verif_acc2 = acc2
     da = sim.must(mux.open_dlc(1, max_frame_size=200, initial_credits=7), 'dlc')
     sim.loop.settle()
     if not acc:
@@ -905,6 +909,18 @@ def _cl_rfcomm(sim, world, ca, cv, case, frames):
     got = bytearray()
     da.sink = lambda data: got.extend(data)
     legit_close = False
+    mfs = case.get('degenerate_dlc')
+    if mfs is not None:
+        # a second data link whose parameter negotiation proposes a degenerate frame size; the victim application echoes on it
+        t2 = sim.loop.create_task(mux.open_dlc(2, max_frame_size=mfs, initial_credits=7))
+        sim.loop.drive(t2.done, vt_budget=10.0, step_budget=300_000)
+        if t2.done() and not t2.cancelled() and t2.exception() is None and mux._verif_acc2:
+            d2, v2 = t2.result(), mux._verif_acc2[0]
+            v2.sink = lambda data: v2.write(bytes(data))
+            sim.probe('data_link_with_degenerate_frame_size')
+            process(sim, label, d2.write, b'hello over a strange link')
+        elif not t2.done():
+            t2.cancel()
     for fr in frames:
         if _rfcomm_close(fr):
             legit_close = True
